@@ -171,9 +171,9 @@ Definition dec_eth (d : list byte) : res tree :=
      if blen d <? 18 then Err else
      tci <- uat 2 d 14 ;; et2 <- uat 2 d 16 ;; pl <- from d 18 ;;
      p <- dec_payload et2 pl ;;
-     (* MarshalBinary writes the tag only when the VLAN id is not 0 *)
+     (* MarshalBinary writes the tag when any of VLAN id, priority, DEI is set: a tag whose TCI is 0 is not re-encoded *)
      Ok (T KEth [VB dst; VB src]
-           ((if N.eqb (N.land tci 4095) 0 then [] else [T KVlan [VN et; VN tci] []]) ++ [T KU16 [VN et2] []; p]))
+           ((if N.eqb tci 0 then [] else [T KVlan [VN et; VN tci] []]) ++ [T KU16 [VN et2] []; p]))
    else
      pl <- from d 14 ;; p <- dec_payload et pl ;;
      Ok (T KEth [VB dst; VB src] [T KU16 [VN et] []; p]))%res.
